@@ -73,7 +73,12 @@ class ProjectSettings:
 
     @sim_end.setter
     def sim_end(self, sim_end):
-        self._sim_end = self.sim_start + np.ceil((sim_end - self.sim_start) / self.sim_dt) * self.sim_dt
+        n_steps = (sim_end - self.sim_start) / self.sim_dt
+        if np.isfinite(n_steps) and abs(n_steps - round(n_steps)) < 1e-9 * max(1.0, abs(n_steps)):
+            n_steps = round(n_steps)  # A whole number of timesteps up to floating point error (e.g. 10.2/0.3 = 34.00000000000015) must not gain an extra step
+        else:
+            n_steps = np.ceil(n_steps)
+        self._sim_end = self.sim_start + n_steps * self.sim_dt
         if sim_end != self._sim_end:
             logger.info(f"Changing sim end from {sim_end} to {self._sim_end} ({(self._sim_end - self._sim_start) / self._sim_dt:.0f} timesteps)")
 
@@ -95,7 +100,7 @@ class ProjectSettings:
 
         """
 
-        return np.linspace(self.sim_start, self.sim_end, int((self.sim_end - self.sim_start) / self.sim_dt) + 1)
+        return np.linspace(self.sim_start, self.sim_end, int(round((self.sim_end - self.sim_start) / self.sim_dt)) + 1)
 
     def update_time_vector(self, start: float = None, end: float = None, dt: float = None) -> None:
         """
